@@ -68,6 +68,8 @@ ActJson(x) ==
 GRecord ==
   [start |-> WriteFen(start), log |-> [i \in 1..Len(log) |-> ActJson(log[i])],
    cur |-> WriteFen(cur), stm |-> SideAfter(start, log), result |-> result,
+   \* the other admissible reading of the current position: an en-passant square nobody can use may be absent
+   curalt |-> WriteFen(IF cur.ep # NoSq /\ EpCaptures(cur) = {} THEN [cur EXCEPT !.ep = NoSq] ELSE cur),
    real |-> realok, menu |-> Menu(cur, log, result)]
 
 EmitG == IF Emit THEN PrintT("GREC " \o ToJson(GRecord)) ELSE TRUE
